@@ -636,11 +636,14 @@ impl Server for GitSyncServer {
     ) -> Result<(AddVersionResult, SnapshotUrgency)> {
         // Accept any parent when the repo is empty (latest == NIL).
         // Otherwise check if parent matches latest. If it doesn't, reset_to_remote and recheck.
-        if self.meta.latest_version != Uuid::nil() && parent_version_id != self.meta.latest_version
-        {
+        // This clone may be behind the remote (even still empty), so "latest" is only trusted
+        // once it has been refreshed.
+        if parent_version_id != self.meta.latest_version {
             self.reset_to_remote()?;
             self.read_meta()?;
-            if parent_version_id != self.meta.latest_version {
+            if self.meta.latest_version != Uuid::nil()
+                && parent_version_id != self.meta.latest_version
+            {
                 return Ok((
                     AddVersionResult::ExpectedParentVersion(self.meta.latest_version),
                     SnapshotUrgency::None,
@@ -648,38 +651,47 @@ impl Server for GitSyncServer {
             }
         }
 
-        // Create the new version and write it to file.
-        let version_id = Uuid::new_v4();
-        let version = Version {
-            version_id,
-            parent_version_id,
-            history_segment,
-        };
-        let version_path = self.add_version_by_parent_version_id(&version)?;
-        self.meta.latest_version = version_id;
-        let meta_path = self.write_meta()?;
+        // A push is also rejected when the remote has gained commits that do not add a version
+        // (another replica's snapshot or cleanup). "latest" is then still our parent, and the
+        // write is simply repeated on the refreshed clone rather than reported as a conflict.
+        const MAX_PUSH_ATTEMPTS: usize = 5;
+        for _ in 0..MAX_PUSH_ATTEMPTS {
+            // Create the new version and write it to file.
+            let version_id = Uuid::new_v4();
+            let version = Version {
+                version_id,
+                parent_version_id,
+                history_segment: history_segment.clone(),
+            };
+            let version_path = self.add_version_by_parent_version_id(&version)?;
+            self.meta.latest_version = version_id;
+            let meta_path = self.write_meta()?;
 
-        // Commit and push, reverting if push fails.
-        self.git.stage_and_commit(
-            &self.local_path,
-            &[&version_path, &meta_path],
-            "add version",
-        )?;
+            // Commit and push, reverting if push fails.
+            self.git.stage_and_commit(
+                &self.local_path,
+                &[&version_path, &meta_path],
+                "add version",
+            )?;
 
-        if !self.push()? {
+            if self.push()? {
+                return Ok((AddVersionResult::Ok(version_id), self.snapshot_urgency()));
+            }
+
             // Push was rejected. Undo the commit. reset_to_remote will fetch, reset --hard,
             // and clean away the stray version file.
             self.git
                 .cmd(&self.local_path, &["reset", "HEAD~1", "--soft"])?;
             self.reset_to_remote()?;
             self.read_meta()?;
-            return Ok((
-                AddVersionResult::ExpectedParentVersion(self.meta.latest_version),
-                SnapshotUrgency::None,
-            ));
+            if self.meta.latest_version != parent_version_id {
+                return Ok((
+                    AddVersionResult::ExpectedParentVersion(self.meta.latest_version),
+                    SnapshotUrgency::None,
+                ));
+            }
         }
-
-        Ok((AddVersionResult::Ok(version_id), self.snapshot_urgency()))
+        Err(Error::Server("Couldn't push to remote.".into()))
     }
 
     async fn get_child_version(
